@@ -96,6 +96,11 @@ func ItemsEqual(it, with Item) bool {
 				})
 			}
 		}
+	} else if IsLink(it) {
+		_ = OnLink(it, func(l *Link) error {
+			result = l.Equals(with)
+			return nil
+		})
 	}
 	return result
 }
